@@ -153,7 +153,10 @@ type world struct {
 
 	sharedSites [3]int
 
-	startRet, shutCall, shutRet uint64
+	startRet, shutCall, shutRet uint64 // shutCall: first Shutdown call; shutRet: first Shutdown return
+	shutRetLast                 uint64 // last Shutdown return (concurrent callers)
+	idlePoints                  []idlePoint
+	idleSkipped, idleRounds     int
 	shutDone                    chan struct{}
 
 	trigCount      atomic.Int64
@@ -218,6 +221,11 @@ type recAdapter struct {
 	written int64 // sum of (dup+1) over Write calls begun
 	holds   int
 
+	inWrite atomic.Bool
+	armed   atomic.Bool // hold the next Write until release is signalled
+	holding atomic.Bool
+	release chan struct{}
+
 	// coverage (written by the writer goroutine only, read after Shutdown)
 	forcedCertain, forcedStalled, holdTimeouts int
 	maxInflight                                int
@@ -227,6 +235,8 @@ type recAdapter struct {
 
 func (a *recAdapter) Write(msg log.Message, dup uint64) {
 	w := a.w
+	a.inWrite.Store(true)
+	defer a.inWrite.Store(false)
 	e := adEntry{Seq: w.tick(), Text: msg.Text(), Sev: int(msg.Severity()), File: msg.File(), Line: msg.LineNumber(), Dup: dup}
 	wantFmt := strings.Contains(e.Text, "T")
 	if dup > 0 && a.fmtSamples < 3 {
@@ -244,6 +254,11 @@ func (a *recAdapter) Write(msg log.Message, dup uint64) {
 	written := a.written
 	a.mu.Unlock()
 
+	if a.armed.CompareAndSwap(true, false) {
+		a.holding.Store(true)
+		<-a.release
+		a.holding.Store(false)
+	}
 	sc := &w.sc
 	if sc.DelayEach > 0 && idx%sc.DelayEach == 0 {
 		time.Sleep(time.Duration(sc.DelayUs) * time.Microsecond)
@@ -306,6 +321,13 @@ func (a *recAdapter) hold(written int64) {
 
 // ---------------------------------------------------------------------------------
 // producers
+
+func (p *producer) name() string {
+	if p.id < 0 {
+		return "ctl"
+	}
+	return fmt.Sprintf("g%d", p.id)
+}
 
 func (p *producer) addRec(r lineRec) int {
 	p.mu.Lock()
@@ -563,7 +585,7 @@ func (p *producer) tracerBlock(phase int) int {
 	r := p.rng
 	pkg := r.Intn(nPkgs)
 	p.trSeq++
-	tid := fmt.Sprintf("g%dT%d", p.id, p.trSeq)
+	tid := fmt.Sprintf("%sT%d", p.name(), p.trSeq)
 	_, tr := addTracer(pkg, context.Background())
 	w.tracerObsMu.Lock()
 	w.tracerObs = append(w.tracerObs, addTracerObs{Phase: phase, Pkg: pkg, Nil: tr == nil})
@@ -795,7 +817,7 @@ func runScenario(sc scenario) *world {
 	w := &world{sc: sc, stopCh: make(chan struct{}), shutDone: make(chan struct{})}
 	w.firstTrigAtEnq.Store(-1)
 	w.stopAt.Store(math.MaxInt64)
-	w.ad = &recAdapter{w: w}
+	w.ad = &recAdapter{w: w, release: make(chan struct{}, 1)}
 	if sc.Procs > 0 {
 		runtime.GOMAXPROCS(sc.Procs)
 	}
@@ -814,7 +836,7 @@ func runScenario(sc scenario) *world {
 			w.phaseWG[i].Add(sc.Producers)
 		}
 	}
-	w.ctl = &producer{w: w, id: -1}
+	w.ctl = &producer{w: w, id: -1, rng: vlib.NewRand(sc.Seed, "ctl", 0)}
 	w.ctl.state.Store(stRun)
 	w.transition.Store(true)
 	for i := 0; i < sc.Producers; i++ {
@@ -928,9 +950,39 @@ func runScenario(sc scenario) *world {
 		if sc.Shutdown == "mid" {
 			w.stopAt.Store(w.returnedAll.Load() + int64(sc.ShutExtra))
 		}
-		w.shutCall = w.tick()
-		log.Shutdown()
-		w.shutRet = w.tick()
+		// 1-3 goroutines call Shutdown at the same moment (released by a barrier);
+		// what Shutdown promises holds at the return of each of the calls
+		nc := sc.ShutCallers
+		if nc < 1 {
+			nc = 1
+		}
+		calls, rets := make([]uint64, nc), make([]uint64, nc)
+		gate := make(chan struct{})
+		var cwg sync.WaitGroup
+		for c := 0; c < nc; c++ {
+			cwg.Add(1)
+			go func(c int) {
+				defer cwg.Done()
+				<-gate
+				calls[c] = w.tick()
+				log.Shutdown()
+				rets[c] = w.tick()
+			}(c)
+		}
+		close(gate)
+		cwg.Wait()
+		w.shutCall, w.shutRet, w.shutRetLast = calls[0], rets[0], rets[0]
+		for c := 1; c < nc; c++ {
+			if calls[c] < w.shutCall {
+				w.shutCall = calls[c]
+			}
+			if rets[c] < w.shutRet {
+				w.shutRet = rets[c]
+			}
+			if rets[c] > w.shutRetLast {
+				w.shutRetLast = rets[c]
+			}
+		}
 		spinStop.Store(true)
 		spinWG.Wait()
 		close(w.shutDone)
@@ -986,6 +1038,7 @@ func runScenario(sc scenario) *world {
 		w.ctl.state.Store(stBarrier)
 
 		// --- phases
+		idleRound := 0
 		for ph := 2; ph < len(w.phases); ph++ {
 			if w.stop.Load() {
 				break
@@ -1005,10 +1058,20 @@ func runScenario(sc scenario) *world {
 				fstop.Store(true)
 				<-fdone
 			}
+			if sc.Family == "idle" && !w.stop.Load() {
+				for i := 0; i < sc.IdleRounds; i++ {
+					idleRound++
+					w.idleRound(ph, idleRound)
+				}
+			}
 		}
 		w.transition.Store(false)
 		if sc.Shutdown != "mid" {
 			w.setStop() // nothing is running any more; releases producers of skipped phases
+			if !sc.Sched {
+				// free-running writer: nothing may be left waiting once everything is idle
+				w.idleVerdict("before-shutdown")
+			}
 			if sc.Sched && sc.Trig.AfterAll {
 				// everything is queued: now let the writer take it in one batch (the
 				// shutdown drain does not merge, the writer's batch loop does)
